@@ -37,7 +37,7 @@ CapOK(e) ==
 \* instance held is no longer counted, i.e. available to the others (global-allocate counterpart of CapOK)
 SumOK(e) == e.sum = e.livesum
 Accept == CASE Ev.k = "obs" -> ObsOK(Ev) [] Ev.k = "capacity" -> CapOK(Ev) [] Ev.k = "sumobs" -> SumOK(Ev) [] OTHER -> TRUE
-Next == /\ l <= Len(Traces[tr].events) /\ Accept
+Next == /\ l <= Len(Traces[tr].events) /\ (Accept = TRUE)
         /\ l' = l + 1 /\ tr' = tr
         /\ CASE Ev.k = "hb" ->
                   /\ run' = IF Known(Ev.i) /\ Ev.now - hb[Ev.i] <= Timeout THEN run ELSE [j \in DOMAIN run \cup {Ev.i} |-> IF j = Ev.i THEN Ev.now ELSE run[j]]
